@@ -195,7 +195,7 @@ func (s *zvSess) updateFor(p zvwPrefix) []byte {
 
 func (s *zvSess) enabled() []string {
 	var en []string
-	connOpen := s.cA != nil && !s.cA.closed
+	connOpen := s.cA != nil && !s.cA.isClosed()
 	for _, e := range zvSessAlphabet {
 		switch e {
 		case evOpen, evOpenBad, evKA, evUpd1, evUpd2, evNotif, evGarbage:
@@ -271,10 +271,11 @@ func (s *zvSess) apply(e string) {
 	vsched.Settle()
 	vsched.Advance(10 * time.Millisecond) // let the update senders' aggregation tick pass
 	// track A's current connection
-	for i := len(s.w.conns) - 1; i >= 0; i-- {
-		if s.w.conns[i].name == "dial" {
-			if s.cA != s.w.conns[i] {
-				s.cA = s.w.conns[i]
+	conns := s.w.connsSnapshot()
+	for i := len(conns) - 1; i >= 0; i-- {
+		if conns[i].name == "dial" {
+			if s.cA != conns[i] {
+				s.cA = conns[i]
 			}
 			break
 		}
